@@ -163,6 +163,34 @@ class CallGuard:
         return n, tr.accept, tr.reject
 
 
+class FieldOptGuard:
+    """A match on an Option/Result-typed *field* (`if let Some(x) = self.field`): accepting shape `steps`."""
+
+    def __init__(self, field, steps, label=None):
+        self.field = field
+        self.steps = tuple(steps) if not isinstance(steps, str) else (steps,)
+        self.label = label or "%s is %s" % (field, ".".join(self.steps))
+
+    def edges(self, body):
+        tr = Tracker(body)
+        n = 0
+        for b in body.blocks:
+            if b["cleanup"]:
+                continue
+            for s in b["stmts"]:
+                rv = s["rv"]
+                if rv["k"] == "discr" and rv["p"][-1] == "." + self.field and len(s["d"]) == 1:
+                    tr.seed_discr(s["d"][0], self.steps)
+                    n += 1
+                elif rv["k"] in ("use", "ref") and len(s["d"]) == 1:
+                    p = rv["a"][1] if rv["k"] == "use" and rv["a"][0] in ("cp", "mv") else rv.get("p")
+                    if p and p[-1] == "." + self.field:
+                        tr.seed_call_result(s["d"][0], self.steps, False)
+                        n += 1
+        tr.run()
+        return n, tr.accept, tr.reject
+
+
 class BoolLocalGuard:
     """A boolean computed at statement/terminator found by `finder(body)` → list of (local, true_is_accept)."""
 
@@ -521,3 +549,36 @@ def _must_call(self, rule, item, pats, descr, floor=1):
 Run.fmt_in = _fmt_in
 Run.no_calls = _no_calls
 Run.must_call = _must_call
+
+
+def _must_pass(self, rule, fn, required, descr=None, from_blocks=None, exits="return"):
+    """K5: every path from entry (or from `from_blocks`) to a normal return crosses a block matching each
+    required sink (list of (label, sink))."""
+    body = fn if not isinstance(fn, str) else self.body(rule, fn)
+    if body is None:
+        return False
+    prep(body)
+    g = cfg_of(body)
+    rets = {b["id"] for b in body.blocks if b["term"]["k"] == "return" and not b["cleanup"]}
+    starts = tuple(from_blocks) if from_blocks else (0,)
+    ok = True
+    detail = []
+    for label, sink in required:
+        blocks = set(sink.blocks(body))
+        if not blocks:
+            ok = False
+            self.viol(rule, "effect-missing:%s" % label, "%s: required effect `%s` not found" % (body.path, label), body, body.lines[0])
+            continue
+        reach = g.reach(starts, avoid=blocks)
+        bad = reach & rets
+        detail.append({"effect": label, "sites": len(blocks)})
+        if bad:
+            ok = False
+            p = g.path(starts, bad, avoid=blocks)
+            self.viol(rule, "skippable:%s" % label, "%s can return without `%s`" % (body.path, label), body, None, trace=g.lines(p))
+    self.inst(rule, "K5 must-follow", descr or "every path through %s performs %s" % (body.npath.split("::")[-1], ", ".join(l for l, _ in required)),
+              len(required), ok, {"effects": detail})
+    return ok
+
+
+Run.must_pass = _must_pass
